@@ -1600,6 +1600,16 @@ REPO_REF: list = []
 
 def run(repo: Repo, rep: Report, tier: str) -> None:
     REPO_REF[:] = [repo]
+    if tier == "thorough":
+        from .c15 import tabulate_demodulators
+
+        tabulate_demodulators(repo, rep, "LABEL", "hard")
+        for f_, c_ in ((f"{MD}/qam.py", "QAMModulator"), (f"{MD}/pam.py", "PAMModulator")):
+            ci_ = repo.cls(f_, c_)
+            fw_ = repo.method(ci_, "forward")
+            st_, d_ = search_tabulated(ci_, fw_)
+            if st_ is not None:
+                rep.add("LABEL", fw_, f"{c_}: bit group -> point tabulated over all groups with a permuted label table (thorough tier)", st_, d_, node=fw_.node)
     mods = registered(repo, "register_modulator")
     dems = registered(repo, "register_demodulator")
     rep.floor("registered modulators", len(mods), 11)
